@@ -150,6 +150,7 @@ declarations:
 - decl: int scale(const std::string &name, int a, int b, int c)
 - decl: int tally(const int *v +rank(1), int n +implied(size(v)), int bias = 100)
 - decl: int tally(int a, int b, int c, int d)
+- decl: void fillText(char *text +intent(out)+charlen(20), int cap +implied(len(text)))
 - decl: int nextValue()
 - decl: int bump(int by)
 - decl: namespace ns
@@ -200,6 +201,7 @@ int scale(int n, int *sum, int factor = 3);
 int scale(const std::string &name, int a, int b, int c);
 int tally(const int *v, int n, int bias = 100);
 int tally(int a, int b, int c, int d);
+void fillText(char *text, int cap);
 int nextValue();
 int bump(int by);
 namespace ns { int nsf(int a); namespace inner { int innerf(int a); } }
@@ -240,6 +242,7 @@ int scale(int n, int *sum, int factor) { vt_txt("RECV scale(int) n="); vt_i(n); 
 int scale(const std::string &name, int a, int b, int c) { vt_txt("RECV scale(str) name="); vt_s(name.data(), (long) name.size()); vt_txt(" a="); vt_i(a); vt_txt("\n"); return a + b + c; }
 int tally(const int *v, int n, int bias) { int s = bias; vt_txt("RECV tally(arr) n="); vt_i(n); vt_txt(" bias="); vt_i(bias); vt_txt("\n"); for (int i = 0; i < n; i++) s += v[i]; return s; }
 int tally(int a, int b, int c, int d) { vt_txt("RECV tally(4) a="); vt_i(a); vt_txt("\n"); return a + b + c + d; }
+void fillText(char *text, int cap) { vt_txt("RECV fillText cap="); vt_i(cap); vt_txt("\n"); if (cap >= 7) { text[0] = 'c'; text[1] = 'a'; text[2] = 'p'; text[3] = '='; text[4] = (char)('0' + cap / 10); text[5] = (char)('0' + cap % 10); text[6] = 0; } else if (cap > 0) text[0] = 0; }
 static int vt_counter = 0;
 int nextValue() { vt_counter += 1; vt_txt("RECV nextValue n="); vt_i(vt_counter); vt_txt("\n"); return vt_counter; }
 int bump(int by) { vt_counter += by; vt_txt("RECV bump n="); vt_i(vt_counter); vt_txt("\n"); return vt_counter; }
